@@ -166,6 +166,12 @@ AWKWARD_COORDS = [2.5e-10, 1.5e+20, -1.25e+100, 1e-10, 1e300, 1.5e+21, 1e22, 123
                   1.0000000000000002, 10 ** 25, -7, 3.0e+40, 1.25e-100]
 
 
+def _printed(thunk):
+    """The string thunk() returns, or the classified exception."""
+    o = A.outcome(thunk)
+    return o[2] if o[:2] == ("obj", "str") else o
+
+
 def point_objects():
     out = []
     # three and four coordinates whose values do not add up exactly, in every order
@@ -503,6 +509,43 @@ def run_c13(tier, seed):
                 st.violation({"why": f"eval({r}) is not equal to the point"})
         except Exception as ex:  # noqa: BLE001
             st.violation({"why": f"eval({r}) raised {type(ex).__name__}"})
+    # coordinate names that are identifiers the library itself uses (parameters, locals, attributes, builtins)
+    idents = A.library_identifiers()
+    st.inc("library_identifiers_as_coordinate_names", len(idents))
+    for name in idents:
+        for d in ({name: 2.5}, {"x": 1, name: 2}, {name: 3, "y": 0.5}):
+            if len(d) < 2 and name in ("x", "y"):
+                continue
+            st.inc("states")
+            st.inc("transitions")
+            want = "Point(" + ", ".join(f"{k}={v}" for k, v in d.items()) + ")"
+            o = _printed(lambda: repr(Point(**d)))
+            o2 = _printed(lambda: str(Point(**d)))
+            if o != want:
+                st.violation({"why": f"Point(**{d!r}) prints as {o}; the constructor call is {want}"})
+                continue
+            if o2 != o:
+                st.violation({"why": f"Point(**{d!r}): str gives {o2}, repr gives {o}"})
+                continue
+            try:
+                back = eval(want, dict(NAMESPACE))  # noqa: S307
+                if not (back == Point(**d)) or dict(back._coordinates) != d:
+                    st.violation({"why": f"eval({want}) is not equal to the point"})
+            except Exception as ex:  # noqa: BLE001
+                st.violation({"why": f"eval({want}) raised {type(ex).__name__}: {ex}"})
+        d = {name: 2.5}
+        vt = M.NPow(M.V(name), 2)
+        wantp = f"Point({name}=2.5)"
+        wante = repr(A.build(vt))
+        for label, mk in (("LocatedDifferential(e, p)", lambda: LocatedDifferential(A.build(vt), Point(**d))),
+                          ("Differential(e).at(p)", lambda: Differential(A.build(vt)).at(Point(**d))),
+                          ("Differential(e, compute_early=True).at(p)", lambda: Differential(A.build(vt), compute_early=True).at(Point(**d)))):
+            st.inc("states")
+            st.inc("transitions")
+            o = _printed(lambda: repr(mk()))
+            want = f"LocatedDifferential({wante}, {wantp})"
+            if o != want:
+                st.violation({"why": f"{label} with the coordinate named {name!r} prints as {o}; the constructor call is {want}"})
     sub = [Add(x, y), Mul(x, y), NPow(x, 2), Root(x, 3), Log(x, 2), Exp(x), x, C(2), Div(x, C(2.5)), Root(Add(x, y), 2),
            Add(Log(x, 2), C(1)), Recip(Mul(x, y)), Mul(Log(x, 2), y), Pow(x, y), Root(Mul(x, y), 5), Mul(Sin(x), Log(y, 10))]
     sub += [Add(x, C(c)) for c in CONST_MENU]
